@@ -11,7 +11,7 @@ Extraction "kvmodel.ml"
   classify fnv64a
   init_state log_open log_close log_publish log_consume log_consume_by_key
   log_get log_get_by_key log_get_by_time log_next log_delete log_stat log_msg_size
-  dir_migrate dir_check dir_check_all dir_recover dir_stat rm_index_at set_segs
+  dir_migrate dir_check dir_check_all dir_recover dir_stat rm_index_at set_segs set_idx
   find_by_offset find_by_count find_by_size find_by_age find_updates find_deletes
   log_delete_multi trim_multi full_scan scan_fuel
   seg_log_size idx_size hdr_size item_size
